@@ -168,6 +168,14 @@ def main():
     with open(tmp, "w") as f:
         json.dump(ev, f, indent=1)
     os.replace(tmp, os.path.join(VERIF, "evidence", pid + ".json"))
+    # per-tier copy of the last clean run (DESIGN.md's tables are generated from these)
+    if viol == 0 and os.environ.get("VERIF_REPO", "/repo") == "/repo":
+        try:
+            os.makedirs(os.path.join(VERIF, "evidence", "by_tier"), exist_ok=True)
+            with open(os.path.join(VERIF, "evidence", "by_tier", "%s.%s.json" % (pid, tier)), "w") as f:
+                json.dump(ev, f, indent=1)
+        except OSError:
+            pass
     for l in lines:
         print(l)
     print("RESULT property=%s tier=%s violations=%d known=%d exhaustive=%s wall=%.1fs" %
